@@ -471,22 +471,28 @@ class Scripts:
                        'lora_tx_set_explicit_header 1 2', 'lora_set_implicit_header NULL',
                        'lora_set_modem_config_2 0x90', 'lora_set_syncword 18', 'set_preamble_length 8', 'rx_set_lna_gain 0',
                        'set_opmod 5 0x80']
-            cut = r.randint(0, len(session))
+            n = r.choice([1, 2, 17, 255, r.randint(1, 255)])
+            if r.random() < 0.35:
+                # the session before the sleep ran with an implicit header (fixed length, payload CRC on)
+                session[5] = 'lora_set_implicit_header %d 1 2' % n
             for i, l in enumerate(session):
                 self.emit(l)
-            n = r.choice([1, 2, 17, 255, r.randint(1, 255)])
             data = self.api.bytes_hex(n)
             start = r.randint(0, 255)
             pending = r.random() < 0.8
+            crcerr = pending and r.random() < 0.3
             if pending:
-                self.emit('env lorarx %d 0 %s' % (start, data))
+                self.emit('env lorarx %d %d %s' % (start, 1 if crcerr else 0, data))
+            if crcerr:
+                # a damaged packet is waiting: the handle that never slept would drop it
+                pending = False
             self.emit('dump')
             self.emit('create')
             self.emit('#= attach')
             self.emit('dump')
             self.emit('rx_set_callback 1')
             self.emit('irq')
-            self.emit('#= resume %s' % (data if pending else '-'))
+            self.emit('#= resume %s%s' % (data if pending else '-', ' crc' if crcerr else ''))
 
     def lora_rx(self, n):
         r = self.rnd
@@ -658,6 +664,13 @@ class Scripts:
                     self.emit('env loraflags 2')
                 self.emit('irq')
                 self.emit('#= hopend')
+                if r.random() < 0.4:
+                    # between two packets: an invocation for something that is neither a hop nor the end of a packet
+                    fl_ = r.choice([0, 0x80, 0x10, 0x90])
+                    if fl_:
+                        self.emit('env loraflags %d' % fl_)
+                    self.emit('irq')
+                    self.emit('#= nohop')
 
     def fsk_frame(self, fmt_variable, address, payload):
         frame = []
@@ -1265,6 +1278,15 @@ class Scripts:
             self.emit('lora_set_bandwidth %d' % r.choice(self.api.enum_values('sx127x_bw_t')))
             self.emit('rx_get_frequency_error')
             self.emit('lora_get_bandwidth')
+        # a new session on a chip that kept its carrier frequency (deep-sleep wake-up): the handle is fresh,
+        # the band that selects the RSSI offset is whatever the chip holds
+        for f in [868000000, 433000000, 915000000, 525000010, 169000000] * max(1, n // 20):
+            self.emit('set_frequency %d' % f)
+            self.emit('create')
+            self.emit('env chip l 0x1a %d' % r.randint(0, 255))
+            self.emit('env chip l 0x19 %d' % r.randint(0, 255))
+            self.emit('dump')
+            self.emit('rx_get_packet_rssi')
         self.emit('set_opmod 1 0')
         for _ in range(n):
             self.emit('env chip f 0x1b %d' % r.randint(0, 255))
